@@ -264,7 +264,7 @@ var c10OpMsg = []string{"unable to extract query for operation", "many queries p
 
 func c10InvalidCheck(ctx *Ctx, pl *fwPool, idx int, cs c10Case) {
 	fail := func(kind, detail string, impl, model interface{}) {
-		ctx.Rep.Fail(hx.Failure{Kind: kind, Detail: detail, Case: cs, Impl: impl, Model: model, Index: idx})
+		fwFail(ctx, hx.Failure{Kind: kind, Detail: detail, Case: cs, Impl: impl, Model: model, Index: idx})
 	}
 	out, err := pl.Run(cs.fwCase)
 	if err != nil {
@@ -388,7 +388,7 @@ func c10GenError(r *hx.Rand, tag string) map[string]interface{} {
 
 func c10ErrorsCheck(ctx *Ctx, pl *fwPool, idx int, cs c10Case) {
 	fail := func(kind, detail string, impl, model interface{}) {
-		ctx.Rep.Fail(hx.Failure{Kind: kind, Detail: detail, Case: cs, Impl: impl, Model: model, Index: idx})
+		fwFail(ctx, hx.Failure{Kind: kind, Detail: detail, Case: cs, Impl: impl, Model: model, Index: idx})
 	}
 	out, err := pl.Run(cs.fwCase)
 	if err != nil {
@@ -648,7 +648,7 @@ func c10FormatCheck(ctx *Ctx, idx int, f c10Format) {
 				}
 			}
 			if !found {
-				ctx.Rep.Fail(hx.Failure{Kind: "property-fails", Detail: "FormatError/ExtendErrorList lost or altered an error: " + string(wb), Case: cs, Impl: got, Index: idx})
+				fwFail(ctx, hx.Failure{Kind: "property-fails", Detail: "FormatError/ExtendErrorList lost or altered an error: " + string(wb), Case: cs, Impl: got, Index: idx})
 				return
 			}
 		}
@@ -658,12 +658,12 @@ func c10FormatCheck(ctx *Ctx, idx int, f c10Format) {
 	}
 	m, err := ctx.Driver.Call(map[string]interface{}{"op": "c10.format", "trees": f.Trees})
 	if err != nil {
-		ctx.Rep.Fail(hx.Failure{Kind: "harness-error", Detail: err.Error(), Case: cs, Index: idx})
+		fwFail(ctx, hx.Failure{Kind: "harness-error", Detail: err.Error(), Case: cs, Index: idx})
 		return
 	}
 	ctx.Rep.Traces++
 	if hx.Canon(m["errors"]) != hx.Canon(got) {
-		ctx.Rep.Fail(hx.Failure{Kind: "model-mismatch", Detail: "FormatError/ExtendErrorList: result differs from Model.Errors.formatError", Case: cs, Impl: got, Model: m["errors"], Index: idx})
+		fwFail(ctx, hx.Failure{Kind: "model-mismatch", Detail: "FormatError/ExtendErrorList: result differs from Model.Errors.formatError", Case: cs, Impl: got, Model: m["errors"], Index: idx})
 	}
 }
 
@@ -704,7 +704,7 @@ func runC10(ctx *Ctx) error {
 	}
 	nOps := 220
 	if ctx.Thorough() {
-		nOps = 6000
+		nOps = 4000
 	}
 	ops, tries := 0, 0
 	for ops < nOps && tries < nOps*20 {
@@ -735,7 +735,7 @@ func runC10(ctx *Ctx) error {
 			if m, err := ctx.Driver.Call(map[string]interface{}{"op": "c10.flow", "valid": true, "operationFound": true, "planOk": true, "introspection": false}); err == nil {
 				ctx.Rep.Traces++
 				if ex, _ := m["executes"].(json.Number); (ex.String() == "1") != (len(base.Exchanges) > 0) {
-					ctx.Rep.Fail(hx.Failure{Kind: "model-mismatch", Detail: "valid operation: model Execute calls vs downstream calls disagree", Case: c10Case{fwCase: proto}, Model: m, Index: idx})
+					fwFail(ctx, hx.Failure{Kind: "model-mismatch", Detail: "valid operation: model Execute calls vs downstream calls disagree", Case: c10Case{fwCase: proto}, Model: m, Index: idx})
 				}
 			}
 		}
@@ -781,7 +781,7 @@ func runC10(ctx *Ctx) error {
 					ctx.Rep.Traces++
 					ex, _ := m["executes"].(json.Number)
 					if (ex.String() != "0") != (len(out.Res.Exchanges) != 0) {
-						ctx.Rep.Fail(hx.Failure{Kind: "model-mismatch", Detail: "introspection: model Execute calls vs downstream calls disagree", Case: cs, Impl: out.Res.Body, Model: m, Index: idx})
+						fwFail(ctx, hx.Failure{Kind: "model-mismatch", Detail: "introspection: model Execute calls vs downstream calls disagree", Case: cs, Impl: out.Res.Body, Model: m, Index: idx})
 					}
 				}
 				ctx.Rep.Case(cs.key(), true)
